@@ -600,8 +600,12 @@ def traversal_deep_order(ctx, N):
     check_forest(ctx, F, "tree")
 
 
-FLAGSETS = [(), ("FUEL",), ("CLAD",), ("FUEL", "DEPLETABLE")]
-SPECS =[("FUEL",), ("CLAD",), ("FUEL", "DEPLETABLE"), [("FUEL",), ("CLAD",)], None]
+FLAGSETS = [(), ("FUEL",), ("CLAD",), ("FUEL", "DEPLETABLE"), ("DEPLETABLE",), ("CLAD", "DEPLETABLE")]
+# type specifications: single flags, a COMBINED flag (all of its bits are required), lists of candidates (any candidate
+# may match; a combined candidate inside a list still requires all of ITS bits: an object carrying only part of it, or
+# parts of two different candidates, does not match), a one-element list, None
+SPECS = [("FUEL",), ("CLAD",), ("FUEL", "DEPLETABLE"), [("FUEL",), ("CLAD",)], None,
+         [("FUEL", "DEPLETABLE"), ("CLAD",)], [("FUEL", "DEPLETABLE"), ("CLAD", "DEPLETABLE")], [("FUEL", "DEPLETABLE")]]
 
 
 def mkflags(names):
@@ -631,10 +635,12 @@ def flags_match(have, spec, exact):
 
 
 @harness("C01", bounds="every forest on N=4 (thorough 5) generic Composites x query root x flag set of every node "
-                       "of the query root's tree (symbolic choice of 4; 3 for N=4 quick); every type specification of "
-                       "5 (incl. a list and None) x exact/non-exact is queried on each path", stubs=STUBS,
-         max_paths=60000, instances={"quick": [dict(N=3, nflag=4), dict(N=NQ, nflag=3)],
-                                     "thorough": [dict(N=NQ, nflag=4), dict(N=NT, nflag=3)]})
+                       "of the query root's tree (symbolic choice of 6 sets over FUEL/CLAD/DEPLETABLE for N=3, of the first "
+                       "3 / 4 of them for larger N); every type specification of 8 (single and combined flags, lists of "
+                       "single flags, lists holding a combined candidate, a one-element list, None) x exact/non-exact "
+                       "is queried on each path: children, all descendants, per-child answers, ancestors", stubs=STUBS,
+         max_paths=60000, instances={"quick": [dict(N=3, nflag=6), dict(N=NQ, nflag=3)],
+                                     "thorough": [dict(N=3, nflag=6), dict(N=NQ, nflag=4), dict(N=NT, nflag=3)]})
 def traversal_flags(ctx, N, nflag):
     P = declare_forest(ctx, N)
     rS = ctx.int("r", 0, N - 1)
@@ -649,6 +655,7 @@ def traversal_flags(ctx, N, nflag):
             o.p.flags = mkflags(have[id(o)])
         else:
             have[id(o)] = ()
+    deep = walk_deep(r)
     for si, spec in enumerate(SPECS):
         for ex in (False, True):
             tag = "spec %d %s" % (si, "exact" if ex else "non-exact")
@@ -660,6 +667,17 @@ def traversal_flags(ctx, N, nflag):
             ctx.check(tag + ": getChildrenWithFlags = the children whose flags match, in child order", ok)
             ctx.check(tag + ": iterChildrenWithFlags yields the same",
                       same_objs(r.iterChildrenWithFlags(mkspec(spec), ex), got))
+            ctx.check(tag + ": all descendants filtered by hasFlags = the naive walk's objects whose flags match",
+                      same_objs(r.getChildren(deep=True, predicate=lambda o: o.hasFlags(mkspec(spec), exact=ex)),
+                                [c for c in deep if flags_match(have[id(c)], spec, ex)]))
+            if not ex:
+                ctx.check(tag + ": doChildrenHaveFlags = one answer per child / per descendant, in walk order",
+                          list(r.doChildrenHaveFlags(mkspec(spec))) == [flags_match(have[id(c)], spec, ex) for c in r]
+                          and list(r.doChildrenHaveFlags(mkspec(spec), deep=True)) ==
+                          [flags_match(have[id(c)], spec, ex) for c in deep])
+                ctx.check(tag + ": containsAtLeastOneChildWithFlags / containsOnlyChildrenWithFlags = any / all of them",
+                          r.containsAtLeastOneChildWithFlags(mkspec(spec)) == any(flags_match(have[id(c)], spec, ex) for c in r)
+                          and r.containsOnlyChildrenWithFlags(mkspec(spec)) == all(flags_match(have[id(c)], spec, ex) for c in r))
             # ancestors with flags, starting from every node below the query root
             okA = True
             for x in [r] + walk_pre(r):
@@ -1198,7 +1216,9 @@ def typed_traversal(ctx):
     ctx.check("flags are the ones derived from the type names", all(o.p.flags == mkflags(fl[id(o)]) for o in objs))
     allComps = [c for b in a for c in b]
     rare = AND(D["nb"] == 2, D["t0"] == 0, D["m0"][0], D["m0"][1], NOT(D["m0"][2]), D["m1"][0], NOT(D["m1"][1]))
-    for spec in (("FUEL",), ("SHIELD",), [("FUEL",), ("SHIELD",)], ("CLAD",), None):
+    # (lists holding a COMBINED candidate: an object with only part of that candidate's flags is not a match)
+    for spec in (("FUEL",), ("SHIELD",), [("FUEL",), ("SHIELD",)], ("CLAD",), None,
+                 [("FUEL", "DEPLETABLE"), ("SHIELD",)], [("SHIELD", "FUEL"), ("CLAD", "DUCT")]):
         for ex in (False, True):
             tag = "spec %r exact=%s" % (spec, ex)
             for o in [a] + list(a):
